@@ -5,7 +5,8 @@
 (* task per connection, shutdown broadcast and completion channel.                      *)
 (*                                                                                     *)
 (* One action per await point of the code:                                              *)
-(*   Listener::listen   acquire().forget()  ->  accept  ->  spawn handler               *)
+(*   Listener::listen   acquire().forget()  ->  accept (retried with back-off when it    *)
+(*                      fails; gives up after too many failures)  ->  spawn handler       *)
 (*   Handler::run       select!{read_frame, shutdown.recv}  ->  Command::try_from  ->    *)
 (*                      spawn_blocking(store call).await  ->  write_frame (two steps so  *)
 (*                      that a torn reply is representable)  ->  back to the select      *)
@@ -35,7 +36,7 @@ BadReqs == {[op |-> "bad"], [op |-> "boom"]}
 
 VARIABLES
     permits,     \* available permits of the semaphore
-    listener,    \* "acquire" | "accept" | "stopped"
+    listener,    \* "acquire" | "accept" | "retry" (accept failed, backing off) | "stopped"
     cstate,      \* [Conns -> "new" | "backlog" | "serving" | "srvclosed"]   server side of the socket
     cli,         \* [Conns -> "open" | "closed"]                               client side
     inbuf,       \* [Conns -> Seq(request)]  complete requests buffered at the server
@@ -108,8 +109,18 @@ ListenerAcquire ==
     /\ listener = "acquire" /\ permits > 0
     /\ permits' = permits - 1 /\ listener' = "accept"
     /\ UNCHANGED <<cstate, cli, inbuf, partial, h, got, nsent, store, applied, shutdown, returned>>
+\* Listener::accept: accept(2) fails (out of descriptors, aborted connection): the listener backs off and
+\* retries, keeping the permit it took; after too many failures in a row listen() returns the error and
+\* Server::run goes through the same exit as for the shutdown signal
+ListenerAcceptFails ==
+    /\ listener \in {"accept", "retry"} /\ listener' = "retry"
+    /\ UNCHANGED <<permits, cstate, cli, inbuf, partial, h, got, nsent, store, applied, shutdown, returned>>
+ListenerGivesUp ==
+    /\ listener = "retry" /\ shutdown = "no"
+    /\ shutdown' = "fired" /\ listener' = "stopped"
+    /\ UNCHANGED <<permits, cstate, cli, inbuf, partial, h, got, nsent, store, applied, returned>>
 ListenerAccept(c) ==
-    /\ listener = "accept" /\ cstate[c] = "backlog"
+    /\ listener \in {"accept", "retry"} /\ cstate[c] = "backlog"
     /\ cstate' = [cstate EXCEPT ![c] = "serving"]
     /\ h' = [h EXCEPT ![c] = [pc |-> "select"]]
     /\ listener' = "acquire"
@@ -197,6 +208,7 @@ HandlerStep(c) ==
     \/ HandlerExec(c) \/ HandlerWrite1(c) \/ HandlerWrite2(c)
 ServerStep ==
     \/ ListenerAcquire \/ (\E c \in Conns : ListenerAccept(c)) \/ (\E c \in Conns : HandlerStep(c))
+    \/ ListenerAcceptFails \/ ListenerGivesUp
     \/ RunDropsNotify \/ RunDropsCompleteTx \/ RunReturns
 Next == (\E c \in Conns : ClientStep(c)) \/ ServerStep \/ ShutdownFires
 
@@ -208,13 +220,13 @@ Spec == Init /\ [][Next]_vars /\ Fairness
 
 -----------------------------------------------------------------------------------------
 (*                                   PROPERTIES                                        *)
-TypeOK == /\ permits \in 0..MaxConn /\ listener \in {"acquire", "accept", "stopped"}
+TypeOK == /\ permits \in 0..MaxConn /\ listener \in {"acquire", "accept", "retry", "stopped"}
           /\ \A c \in Conns : h[c].pc \in {"none", "select", "exec", "write1", "write2", "gone"}
 
 \* C15: never more than MaxConn connections being served; every permit is accounted for;
 \* a handler that ended, however it ended, gave its permit back
 ServingAtMostMax == Cardinality(AliveSet) <= MaxConn
-HeldByListener == IF listener = "accept" THEN 1 ELSE 0
+HeldByListener == IF listener \in {"accept", "retry"} THEN 1 ELSE 0
 \* when shutdown drops the listen() future while it holds a forgotten permit, that permit is gone
 LostAtShutdown == IF listener = "stopped" THEN MaxConn - permits - Cardinality(AliveSet) ELSE 0
 PermitConservation ==
